@@ -10,6 +10,7 @@ import (
 // C13 — an expression means the same everywhere; pipes compose left to right.
 
 //verif:harness VerifC13_Positions quick.maxpaths=100000 thorough.maxpaths=600000 timeout=3000
+//verif:harness VerifC13_NilOperands quick.maxpaths=20000 thorough.maxpaths=100000 timeout=1800
 //verif:harness VerifC13_MixedTypes quick.maxpaths=20000 thorough.maxpaths=100000 timeout=1800
 //verif:harness VerifC13_Pipes quick.maxpaths=60000 thorough.maxpaths=300000 timeout=2400
 //verif:harness VerifC13_Errors quick.maxpaths=20000 thorough.maxpaths=100000 timeout=1800
@@ -398,4 +399,44 @@ func VerifC13_MixedTypes() {
 		zzAssert(err1 == nil && err2 == nil, "C13.mixed.render-error")
 		zzAssert(strings.Contains(out1, wa) && strings.Contains(out2, wb), "C13.mixed.struct-field-values")
 	}
+}
+
+// VerifC13_NilOperands: a variable that is nil, present with a nil value in
+// an inner scope, or missing compares and negates like nil in every position.
+func VerifC13_NilOperands() {
+	how := zzChoice("how", 4) // missing, nil in the data, nil loop item shadowing a value, nil slot prop
+	expr := []string{"x == nil", "x != nil", "!x", "x == nil ? 'none' : 'some'", "x != nil && x == 'v'", "!zero", "!word", "!m.missing"}[zzChoice("expr", 8)]
+	want := []string{"true", "false", "true", "none", "false", "true", "false", "true"}
+	data := map[string]any{"zero": 0, "word": "w", "m": map[string]any{"k": 1}}
+	body := `<p>[{{ EXPR }}]</p><a :data-v="EXPR">A</a><i v-if="EXPR">IF</i><i v-else>ELSE</i><s v-show="EXPR">S</s>`
+	switch how {
+	case 1:
+		data["x"] = nil
+	case 2:
+		data["x"] = "outer"
+		data["xs"] = []any{nil}
+		body = `<div v-for="x in xs">` + body + `</div>`
+	case 3:
+		data["x"] = "outer"
+		body = `<template :x="nothing">` + body + `</template>`
+	}
+	body = strings.ReplaceAll(body, "EXPR", expr)
+	k := 0
+	for i, e := range []string{"x == nil", "x != nil", "!x", "x == nil ? 'none' : 'some'", "x != nil && x == 'v'", "!zero", "!word", "!m.missing"} {
+		if e == expr {
+			k = i
+		}
+	}
+	out, err := zzRenderVia(zzEntry(), nil, nil, body, data)
+	zzNote("template", body)
+	zzNote("out", out)
+	if err != nil {
+		zzNote("err", err.Error())
+	}
+	zzAssert(err == nil, "C13.nil.render-error")
+	zzAssert(strings.Contains(out, "["+want[k]+"]"), "C13.nil.interpolation")
+	truthy := want[k] == "true" || want[k] == "none"
+	zzAssert(strings.Contains(out, ">IF<") == truthy, "C13.nil.v-if")
+	zzAssert(strings.Contains(out, "display:none") == !truthy, "C13.nil.v-show")
+	zzAssert(strings.Contains(out, "data-v=") == truthy, "C13.nil.bound-attribute")
 }
